@@ -57,6 +57,20 @@ class IslandModel:
                     isinstance(s.target, ast.Tuple) and \
                     not s.iter.keywords and len(s.iter.args) == 1:
                 self.loop, self.ivar = s, norm(s.target.elts[0])
+        self.domain = None
+        if self.loop is None:
+            # a data-dependent pre-selection of labels:  for i in <labels>
+            for s in walk_no_nested(f):
+                if isinstance(s, ast.For) and isinstance(s.target, ast.Name) \
+                        and self.boxes and any(
+                            isinstance(x, ast.Subscript) and
+                            norm(x.value) == self.boxes and
+                            norm(x.slice) == s.target.id
+                            for x in ast.walk(s)):
+                    d = self.label_set(s.iter)
+                    if d is not None:
+                        self.loop, self.ivar, self.domain = \
+                            s, s.target.id, d
         if self.loop is None:
             raise AnalysisError("find_islands: per-island loop over "
                                 "range(n) / enumerate(boxes) not found")
@@ -65,6 +79,115 @@ class IslandModel:
         # the labelled mask variable and snr
         self.mask_name = norm(self.label_call.args[0]) \
             if self.label_call.args else None
+
+    # ---- label-set expressions (pre-selected island loops) ---------------
+    def _def(self, name):
+        ds = [s for s in walk_no_nested(self.fi.node)
+              if isinstance(s, ast.Assign) and len(s.targets) == 1
+              and isinstance(s.targets[0], ast.Name)
+              and s.targets[0].id == name]
+        return ds[0].value if len(ds) == 1 else None
+
+    def label_set(self, e, depth=0):
+        """Abstract value of an expression that enumerates labels of the
+        label image: dict(cond=<mask ast or None>, zero='yes'|'no'|'maybe'
+        (may the background label 0 be among the values), shift=<int added>,
+        unique=<bool>, bad=<reason or None>); None = not a label set."""
+        if depth > 10:
+            return None
+        PASS = ("set", "sorted", "list", "np.asarray", "np.array", "np.sort",
+                "numpy.asarray", "numpy.array", "numpy.sort", "iter")
+        if isinstance(e, ast.Name):
+            if e.id == self.lab:
+                return dict(cond=None, zero="maybe", shift=0, unique=False,
+                            bad=None)
+            d = self._def(e.id)
+            return self.label_set(d, depth + 1) if d is not None else None
+        if isinstance(e, ast.BinOp) and isinstance(e.op, (ast.Add, ast.Sub)) \
+                and isinstance(e.right, ast.Constant) \
+                and isinstance(e.right.value, int):
+            v = self.label_set(e.left, depth + 1)
+            if v is None:
+                return None
+            k = e.right.value if isinstance(e.op, ast.Add) else -e.right.value
+            return dict(v, shift=v["shift"] + k)
+        if isinstance(e, ast.BinOp) and isinstance(e.op, ast.Mult):
+            for a, b in ((e.left, e.right), (e.right, e.left)):
+                if norm(a) == self.lab:
+                    return dict(cond=b, zero="maybe", shift=0, unique=False,
+                                bad=None)
+            return None
+        if isinstance(e, ast.Call):
+            fn = norm(e.func)
+            if fn in ("np.unique", "numpy.unique") and len(e.args) == 1 \
+                    and not e.keywords:
+                v = self.label_set(e.args[0], depth + 1)
+                return dict(v, unique=True) if v else None
+            if fn in PASS and len(e.args) == 1:
+                return self.label_set(e.args[0], depth + 1)
+            if fn in ("np.where", "numpy.where") and len(e.args) == 3 and \
+                    norm(e.args[1]) == self.lab and norm(e.args[2]) == "0":
+                return dict(cond=e.args[0], zero="maybe", shift=0,
+                            unique=False, bad=None)
+            if fn in ("np.setdiff1d", "numpy.setdiff1d") and \
+                    len(e.args) == 2 and norm(e.args[1]) in ("0", "[0]",
+                                                             "(0,)"):
+                v = self.label_set(e.args[0], depth + 1)
+                return dict(v, zero="no", unique=True) if v else None
+            if isinstance(e.func, ast.Attribute) and e.func.attr in (
+                    "tolist", "astype", "ravel", "flatten", "copy"):
+                return self.label_set(e.func.value, depth + 1)
+            return None
+        if isinstance(e, ast.Subscript):
+            v = self.label_set(e.value, depth + 1)
+            if v is None:
+                return None
+            sl = e.slice
+            if isinstance(sl, ast.Slice):
+                if sl.upper is None and sl.step is None and \
+                        sl.lower is not None and norm(sl.lower) == "1":
+                    if v["unique"] and v["zero"] == "yes":
+                        return dict(v, zero="no")
+                    return dict(v, bad="`%s` drops the first (smallest) "
+                                "entry on the assumption that it is the "
+                                "background label 0; when no selected value "
+                                "is 0 (every pixel passes the selection) the "
+                                "entry dropped is label 1 -- the first island "
+                                "is never visited" % norm(e, 60))
+                return dict(v, bad="positional slice `%s` of a label set" %
+                            norm(e, 60))
+            # boolean selections
+            if norm(e.value) == self.lab or (isinstance(e.value, ast.Name)
+                                             and not v["unique"]):
+                if v["cond"] is None:
+                    z = "no" if self._implies_labelled(sl) else "maybe"
+                    return dict(v, cond=sl, zero=z)
+            # u[u > 0] / u[u != 0] / u[np.nonzero(u)]
+            base = norm(e.value)
+            t = norm(sl).replace(" ", "")
+            if t in (base + ">0", base + "!=0", "0<" + base, "0!=" + base,
+                     base + ">=1", "np.nonzero(%s)" % base,
+                     "numpy.nonzero(%s)" % base):
+                return dict(v, zero="no")
+            return None
+        return None
+
+    def _implies_labelled(self, cond):
+        """does mask `cond` select only pixels of the labelled mask
+        (x > seed  implies  x >= flood  because flood <= seed)?"""
+        m = self._def(self.mask_name_()) if self.mask_name_() else None
+        if not (isinstance(cond, ast.Compare) and isinstance(m, ast.Compare)
+                and len(cond.ops) == 1 and len(m.ops) == 1):
+            return False
+        return norm(cond.left) == norm(m.left) and \
+            isinstance(cond.ops[0], (ast.Gt, ast.GtE)) and \
+            isinstance(m.ops[0], (ast.Gt, ast.GtE)) and \
+            "seed" in norm(cond.comparators[0]) and \
+            "flood" in norm(m.comparators[0])
+
+    def mask_name_(self):
+        a = self.label_call.args[0] if self.label_call.args else None
+        return a.id if isinstance(a, ast.Name) else None
 
     def _views(self, base):
         """base plus every local name assigned a subscript of such a name"""
